@@ -11,6 +11,11 @@
 //!  * no misparse: whenever a (mutated) argument vector is accepted, re-encoding the accepted
 //!    value and decoding again yields the same value (so the vector is an encoding of what it
 //!    was parsed to); a corrupted compressed blob is rejected or decodes to the original value;
+//!  * C17_task_commit: on a real `MetaStore` with pending migrations, the descriptor served to the
+//!    source proxy (MIGRATING) and to the destination proxy (IMPORTING) of every pending migration,
+//!    taken through the INFOMGR string and the real coordinator parser, is accepted by the real
+//!    `commit_migration` exactly once (whichever side reports first; the second submission gets
+//!    MIGRATION_TASK_NOT_FOUND); a tag-None descriptor gets INVALID_MIGRATION_TASK;
 //!  * F8: an argument vector containing an element that is not a UTF-8 bulk string must not be
 //!    accepted by `ProxyClusterMeta::from_resp` / `ReplicatorMeta::from_resp`.
 use serde_json::json;
@@ -20,7 +25,9 @@ use std::pin::Pin;
 use std::sync::Arc;
 use umharness::proto_support::*;
 use umharness::util::*;
-use undermoon::common::cluster::{ClusterName, MigrationTaskMeta, RangeList};
+use umharness::broker_support::render_store;
+use undermoon::broker::verif_export::store::{MetaStore, MetaStoreError};
+use undermoon::common::cluster::{ClusterName, MigrationTaskMeta, RangeList, SlotRangeTag};
 use undermoon::common::config::ClusterConfig;
 use undermoon::common::proto::{ClusterMapFlags, ProxyClusterMeta, ProxyClusterMetaData};
 use undermoon::coordinator::verif_export::core::MigrationStateChecker;
@@ -193,6 +200,10 @@ struct H {
     s: Streams,
     /// how many failures of each known-finding class have been recorded (the rest is counted)
     finding_recorded: std::collections::BTreeMap<String, u32>,
+    /// the real store of the commit leg during a replay
+    rstore: Option<MetaStore>,
+    /// op lines of the current commit-leg case (the replay of a failure there)
+    commit_ops: Vec<String>,
 }
 
 impl H {
@@ -1102,6 +1113,208 @@ impl H {
 }
 
 // ------------------------------------------------------------------------------------------
+// the commit leg (C17_task_commit): broker -> proxies -> coordinator -> broker on a real MetaStore.
+// Broker op lines (`b …`) use the grammar of umh_broker.rs / UmDriver/Broker.lean.
+// ------------------------------------------------------------------------------------------
+fn code(e: &MetaStoreError) -> String {
+    e.to_code().to_string()
+}
+fn cluster_pairs(store: &MetaStore, name: &str) -> Vec<String> {
+    ClusterName::try_from(name).ok().and_then(|cn| store.clusters.get(&cn).map(|c| {
+        c.chunks.iter().map(|ch| format!("{},{}", ch.proxy_addresses[0], ch.proxy_addresses[1])).collect()
+    })).unwrap_or_default()
+}
+fn new_pairs(before: &[String], after: &[String]) -> String {
+    let v: Vec<String> = after.iter().filter(|p| !before.contains(p)).cloned().collect();
+    if v.is_empty() { "-".into() } else { v.join(";") }
+}
+/// one mutating broker op against the real store: (op line with the implementation's choice, observable)
+fn broker_exec(st: &mut MetaStore, toks: &[&str]) -> (String, String) {
+    let r = std::panic::catch_unwind(std::panic::AssertUnwindSafe(|| {
+        let fin = |st: &MetaStore, r: Result<String, MetaStoreError>| match r {
+            Ok(extra) => format!("OK{} g={}", extra, st.global_epoch),
+            Err(e) => format!("ERR {} g={}", code(&e), st.global_epoch),
+        };
+        match toks {
+            ["add_proxy", a, n0, n1, h] => {
+                let host = if *h == "-" { None } else { Some(h.to_string()) };
+                let r = st.add_proxy(a.to_string(), [n0.to_string(), n1.to_string()], host, None);
+                (toks.join(" "), fin(st, r.map(|_| String::new())))
+            }
+            ["add_cluster", n, k, _] => {
+                let before = cluster_pairs(st, n);
+                let r = st.add_cluster(n.to_string(), k.parse().unwrap_or(0), undermoon::common::config::ClusterConfig::default());
+                let choice = if r.is_ok() { new_pairs(&before, &cluster_pairs(st, n)) } else { "-".into() };
+                (format!("add_cluster {} {} {}", n, k, choice), fin(st, r.map(|_| String::new())))
+            }
+            ["add_nodes", n, k, _] => {
+                let before = cluster_pairs(st, n);
+                let r = st.auto_add_nodes(n.to_string(), k.parse().unwrap_or(0));
+                let choice = if r.is_ok() { new_pairs(&before, &cluster_pairs(st, n)) } else { "-".into() };
+                (format!("add_nodes {} {} {}", n, k, choice), fin(st, r.map(|_| String::new())))
+            }
+            ["migrate", n] => { let r = st.migrate_slots(n.to_string()); (toks.join(" "), fin(st, r.map(|_| String::new()))) }
+            ["scale_down", n, k] => { let r = st.migrate_slots_to_scale_down(n.to_string(), k.parse().unwrap_or(0)); (toks.join(" "), fin(st, r.map(|_| String::new()))) }
+            ["failover", a, _] => {
+                let r = st.replace_failed_proxy(a.to_string(), 0);
+                let (choice, r2) = match r {
+                    Ok(Some(p)) => (p.get_address().to_string(), Ok(format!(" {}", p.get_address()))),
+                    Ok(None) => ("-".to_string(), Ok(" none".to_string())),
+                    Err(e) => ("-".to_string(), Err(e)),
+                };
+                (format!("failover {} {}", a, choice), fin(st, r2))
+            }
+            _ => (toks.join(" "), "bad-op".to_string()),
+        }
+    }));
+    r.unwrap_or_else(|_| (toks.join(" "), "PANIC".to_string()))
+}
+
+/// (cluster, epoch, rendered ranges) of every pending (migrating) entry
+fn pending_entries(store: &MetaStore) -> Vec<(String, u64, String)> {
+    let mut v = vec![];
+    for c in store.clusters.values() { for ch in c.chunks.iter() { for l in ch.migrating_slots.iter() { for m in l.iter() {
+        if m.is_migrating { v.push((c.name.to_string(), m.meta.epoch, umharness::broker_support::render_ranges(&m.range_list))); }
+    } } } }
+    v.sort();
+    v
+}
+
+struct Served { s: String, epoch: u64, ranges: String, importing: bool }
+
+impl H {
+    fn b(&mut self, store: &mut MetaStore, line: &str) -> String {
+        let toks: Vec<&str> = line.split(' ').collect();
+        let (op, obs) = broker_exec(store, &toks);
+        self.s.op(&format!("b {}", op), &obs);
+        self.commit_ops.push(format!("b {}", op));
+        self.s.stats.count(&format!("commit.op.{}", toks[0]));
+        self.s.op("b state", &render_store(store));
+        obs
+    }
+
+    /// what the broker serves to one proxy, as the INFOMGR strings the proxy will report
+    fn op_served(&mut self, store: &MetaStore, addr: &str, limit: u64) -> Vec<Served> {
+        let mut out = vec![];
+        let obs = match catch(|| store.get_proxy_by_address(addr, limit)) {
+            None => "PANIC".to_string(),
+            Some(None) => "S".to_string(),
+            Some(Some(p)) => {
+                if let Some(cn) = p.get_cluster_name().cloned() {
+                    for node in p.get_nodes().iter() {
+                        for sr in node.get_slots().iter() {
+                            let (epoch, importing) = match &sr.tag {
+                                SlotRangeTag::None => continue,
+                                SlotRangeTag::Migrating(m) => (m.epoch, false),
+                                SlotRangeTag::Importing(m) => (m.epoch, true),
+                            };
+                            let task = MigrationTaskMeta { cluster_name: cn.clone(), slot_range: sr.clone() };
+                            // proxy side of INFOMGR (handle_umctl_info_migration)
+                            let s = task.into_strings().join(" ");
+                            out.push(Served { s, epoch, ranges: umharness::broker_support::render_ranges(sr.get_range_list()), importing });
+                        }
+                    }
+                }
+                let mut o = vec!["S".to_string()];
+                o.extend(out.iter().map(|d| hs(&d.s)));
+                sp(&o)
+            }
+        };
+        self.s.op(&format!("served {} {}", addr, limit), &obs);
+        out
+    }
+
+    /// one INFOMGR element -> real coordinator parser -> real `commit_migration`
+    fn op_commitdesc(&mut self, store: &mut MetaStore, el: &El, clear: bool) -> String {
+        let obs = match real_infomgr(el) {
+            None => "PANIC".to_string(),
+            Some(None) => "REJECT".to_string(),
+            Some(Some(task)) => match catch(|| store.commit_migration(task, clear)) {
+                None => "PANIC".to_string(),
+                Some(Ok(())) => format!("OK g={}", store.global_epoch),
+                Some(Err(e)) => format!("ERR {} g={}", code(&e), store.global_epoch),
+            },
+        };
+        self.s.op(&format!("commitdesc {} {}", el_tok(el), clear as u8), &obs);
+        self.commit_ops.push(format!("commitdesc {} {}", el_tok(el), clear as u8));
+        let kind = if obs.starts_with("OK") { "OK".to_string() } else { obs.split(" g=").next().unwrap_or("?").replace(' ', "_") };
+        self.s.stats.count(&format!("out.commitdesc.{}", kind));
+        self.s.op("b state", &render_store(store));
+        obs
+    }
+
+    fn case_commit(&mut self, rng: &mut Rng) {
+        self.s.case();
+        self.commit_ops.clear();
+        let mut store = MetaStore::new(false);
+        let mut replay: Vec<String> = vec![];
+        let np = 12 + 2 * rng.below(6) as usize;
+        for j in 0..np {
+            let l = format!("add_proxy p{}:{} n{}:{} n{}:{} h{}", j, 6000 + j, j, 7000 + 2 * j, j, 7001 + 2 * j, j);
+            self.b(&mut store, &l); replay.push(format!("b {}", l));
+        }
+        let (start, scale_down) = match rng.below(4) { 0 => (8, true), 1 => (8, false), 2 => (12, true), _ => (4, false) };
+        let l = format!("add_cluster c0 {} -", start); self.b(&mut store, &l);
+        if scale_down {
+            let to = if start == 12 { *rng.pick(&[4usize, 8]) } else { 4 };
+            let l = format!("scale_down c0 {}", to); self.b(&mut store, &l);
+            self.s.stats.count("gen.commit.scale_down");
+        } else {
+            let l = format!("add_nodes c0 {} -", *rng.pick(&[4usize, 8])); self.b(&mut store, &l);
+            self.b(&mut store, "migrate c0");
+            self.s.stats.count("gen.commit.scale_out");
+        }
+        if rng.chance(1, 3) {
+            // a failover in between: epochs of the affected entries are bumped, addresses change
+            let addrs: Vec<String> = cluster_pairs(&store, "c0").iter().flat_map(|p| p.split(',').map(|x| x.to_string()).collect::<Vec<_>>()).collect();
+            if !addrs.is_empty() { let a = rng.pick(&addrs).clone(); self.b(&mut store, &format!("failover {} -", a)); self.s.stats.count("gen.commit.failover"); }
+        }
+        let pend = pending_entries(&store);
+        self.s.stats.add("commit.pending_migrations", pend.len() as u64);
+        if pend.is_empty() { return; }
+        // serve every proxy of the cluster (limit 0 = every pending migration is served)
+        let addrs: Vec<String> = cluster_pairs(&store, "c0").iter().flat_map(|p| p.split(',').map(|x| x.to_string()).collect::<Vec<_>>()).collect();
+        let mut served: Vec<Served> = vec![];
+        for a in addrs.iter() { served.extend(self.op_served(&store, a, 0)); }
+        if rng.chance(1, 2) { let a = rng.pick(&addrs).clone(); self.op_served(&store, &a, 1 + rng.below(2)); }
+        let ops_so_far = |h: &H| -> Vec<String> { let _ = h; vec![] };
+        let _ = ops_so_far;
+        for (cl, epoch, ranges) in pend.iter() {
+            let src: Vec<&Served> = served.iter().filter(|d| !d.importing && d.epoch == *epoch && d.ranges == *ranges).collect();
+            let dst: Vec<&Served> = served.iter().filter(|d| d.importing && d.epoch == *epoch && d.ranges == *ranges).collect();
+            if src.len() != 1 || dst.len() != 1 {
+                self.fail(&format!("pending migration {} {}@{} is not served exactly once to its source and once to its destination proxy (src {}, dst {})", cl, ranges, epoch, src.len(), dst.len()), "", vec![]);
+                continue;
+            }
+            let first_importing = rng.chance(1, 2);
+            let (first, second) = if first_importing { (dst[0], src[0]) } else { (src[0], dst[0]) };
+            self.s.stats.count(if first_importing { "gen.commit.first_from_destination" } else { "gen.commit.first_from_source" });
+            if rng.chance(1, 4) {
+                // a descriptor without a tag and one of an unknown cluster are refused
+                self.op_commitdesc(&mut store, &El::B(format!("c0 1 {}", "0-100").into_bytes()), false);
+                self.op_commitdesc(&mut store, &El::B(first.s.replacen("c0", "zz", 1).into_bytes()), false);
+            }
+            let clear = rng.chance(1, 2);
+            let o1 = self.op_commitdesc(&mut store, &El::B(first.s.clone().into_bytes()), clear);
+            if !o1.starts_with("OK") {
+                self.fail("the descriptor a proxy reports for a pending migration was not accepted by commit_migration", "",
+                    { let mut r = vec![format!("# first report from the {} proxy: {}", if first_importing { "destination (IMPORTING)" } else { "source (MIGRATING)" }, first.s)];
+                      r.extend(self.commit_ops.clone()); r });
+            } else {
+                self.s.stats.nontrivial_case(&first.s);
+            }
+            let o2 = self.op_commitdesc(&mut store, &El::B(second.s.clone().into_bytes()), clear);
+            if o1.starts_with("OK") && !o2.starts_with("ERR MIGRATION_TASK_NOT_FOUND") {
+                self.fail("the second report of an already committed migration was not answered MIGRATION_TASK_NOT_FOUND", "", self.commit_ops.clone());
+            }
+        }
+        if !pending_entries(&store).is_empty() {
+            self.fail("pending migrations remain after every reported descriptor has been committed", "", self.commit_ops.clone());
+        }
+    }
+}
+
+// ------------------------------------------------------------------------------------------
 // replay: run exactly the op lines of a file against the real code (DEC and the toargs order
 // are recomputed from the real code; the oracle is applied per line where it is line-local)
 // ------------------------------------------------------------------------------------------
@@ -1122,7 +1335,39 @@ impl H {
         let rest = toks.get(1..).unwrap_or(&[]).to_vec();
         let done: Option<()> = (|| {
             match toks.first()?.as_str() {
-                "case" => { self.s.case(); }
+                "case" => { self.s.case(); self.rstore = None; }
+                "b" => {
+                    let mut st = self.rstore.take().unwrap_or_else(|| MetaStore::new(false));
+                    if rest.first().map(|x| x.as_str()) == Some("state") {
+                        self.s.op("b state", &render_store(&st));
+                    } else {
+                        let t: Vec<&str> = rest.iter().map(|x| x.as_str()).collect();
+                        let (op, obs) = broker_exec(&mut st, &t);
+                        self.s.op(&format!("b {}", op), &obs);
+                    }
+                    self.rstore = Some(st);
+                }
+                "served" => {
+                    let st = self.rstore.take().unwrap_or_else(|| MetaStore::new(false));
+                    self.op_served(&st, rest.first()?, rest.get(1)?.parse().ok()?);
+                    self.rstore = Some(st);
+                }
+                "commitdesc" => {
+                    let mut st = self.rstore.take().unwrap_or_else(|| MetaStore::new(false));
+                    let el = p_el(rest.first()?)?;
+                    // line-local oracle: a descriptor of a pending migration (either tag) must be accepted
+                    let parsed = real_infomgr(&el).flatten();
+                    let pend = pending_entries(&st);
+                    let obs = self.op_commitdesc(&mut st, &el, rest.get(1).map(|x| x == "1").unwrap_or(false));
+                    if let Some(t) = parsed {
+                        let ep = match &t.slot_range.tag { SlotRangeTag::Migrating(m) | SlotRangeTag::Importing(m) => Some(m.epoch), SlotRangeTag::None => None };
+                        let key = ep.map(|e| (t.cluster_name.to_string(), e, umharness::broker_support::render_ranges(t.slot_range.get_range_list())));
+                        if key.map(|k| pend.contains(&k)).unwrap_or(false) && !obs.starts_with("OK") {
+                            self.fail("the descriptor a proxy reports for a pending migration was not accepted by commit_migration", "", vec![line.to_string()]);
+                        }
+                    }
+                    self.rstore = Some(st);
+                }
                 "toargs" => { let mut c = Cur::new(rest.get(1..)?); let d = p_meta(&mut c)?; self.op_toargs(&d)?; }
                 "toargsc" => { let mut c = Cur::new(rest.get(1..)?); let d = p_meta(&mut c)?; self.op_toargsc(&d)?; }
                 "parse" => {
@@ -1174,7 +1419,7 @@ fn main() {
     std::panic::set_hook(Box::new(|_| {}));
     let args = parse_args();
     let mut rng = Rng::new(args.seed);
-    let mut h = H { s: Streams::new(&args), finding_recorded: Default::default() };
+    let mut h = H { s: Streams::new(&args), finding_recorded: Default::default(), rstore: None, commit_ops: vec![] };
     if let Some(p) = &args.replay {
         let lines = read_lines(p);
         if !lines.iter().any(|l| l.starts_with("case ")) { h.s.case(); }
@@ -1199,6 +1444,8 @@ fn main() {
             let (d, wf, _) = gen_task(&mut rng, &mut h.s.stats);
             h.case_task(&mut rng, &d, wf);
         }
+        let n_commit = if args.thorough { 400 } else { 40 };
+        for _ in 0..n_commit { h.case_commit(&mut rng); }
     }
-    h.s.finish("proto", "cases: one generated value each (cluster meta / replication meta / task descriptor) with its encodings, decodings and every single-token deletion + sampled corruptions; non-trivial = a well-formed cluster meta (>=0 nodes, all tag kinds, peers, config), a replication meta with >=1 entry, a space-free well-formed task descriptor, a range list that compacts to >=2 ranges; distinct = distinct encode op lines");
+    h.s.finish("proto", "cases: one generated value each (cluster meta / replication meta / task descriptor) with its encodings, decodings and every single-token deletion + sampled corruptions; non-trivial = a well-formed cluster meta (>=0 nodes, all tag kinds, peers, config), a replication meta with >=1 entry, a space-free well-formed task descriptor, a range list that compacts to >=2 ranges, a pending migration of a real MetaStore whose reported descriptor was committed; distinct = distinct encode op lines");
 }
